@@ -633,7 +633,9 @@ func (c *checker) run(only string) int {
 		if rep.Incomplete {
 			inconclusive = append(inconclusive, fmt.Sprintf("%s: exploration stopped by path/time budget after %d paths", e.Func, rep.Paths))
 		}
-		if rep.ByOutcome[symgo.OutOK] == 0 {
+		if rep.ByOutcome[symgo.OutOK] == 0 && len(rep.Violations) == 0 {
+			// (an entry whose every path ends at a failing assertion is not vacuous: it is reported
+			// through its violations / known findings)
 			inconclusive = append(inconclusive, fmt.Sprintf("%s: vacuous (no path completed)", e.Func))
 		}
 		// translator validation: replay sample vectors of OK paths natively
